@@ -951,7 +951,8 @@ inline bool presentation_legal(const Spec& s) {
     return true;
 }
 
-inline std::vector<Spec> spec_shrinks(const Spec& s, bool keep_canonical) {
+inline std::vector<Spec> spec_shrinks(
+    const Spec& s, bool keep_canonical, bool keep_ids = false) {
     std::vector<Spec> out;
     // drop a method
     for (std::size_t i = 0; i < s.meths.size(); ++i) {
@@ -1079,7 +1080,7 @@ inline std::vector<Spec> spec_shrinks(const Spec& s, bool keep_canonical) {
         }
     }
     // simplest id scheme
-    if (s.id_scheme != "small") {
+    if (s.id_scheme != "small" && !keep_ids) {
         Spec r = s;
         r.id_scheme = "small";
         r.id_aux = 0;
